@@ -14,7 +14,7 @@ getter returns), not from the implementation.
 """
 import numpy as np
 
-NAMES = ["a", "b", "zz", "aa", "mm", "ü∂", "x y", "d1", "Z", "same", "00", "_"]
+NAMES = ["a", "b", "zz", "aa", "mm", "ü∂", "x y", "d1", "Z", "same", "00", "_", "e\u0301", "\u212b"]
 STRS = [(None, None), ("", ""), ("txt", "txt"), ("ünï ∂", "ünï ∂"), ("x" * 60, "x" * 60)]
 UNITS = [(None, None), ("mV", "mV"), (" m s", "ms"), ("µV", "uV"), ("kHz", "kHz"), ("", None)]
 TYPES = [("t", "t"), ("ü.type", "ü.type"), ("nix.x", "nix.x")]
@@ -52,6 +52,8 @@ class Builder:
         self.with_frames, self.dims, self.deletes = with_frames, dims, deletes
         self.log = []
         self.paths_used = {}
+        self.handles, self._cache_f = {}, f
+        self.handle_pairs = rng.random() < 0.5
         self.n = 0
 
     # ---- helpers ---------------------------------------------------------------------
@@ -70,8 +72,33 @@ class Builder:
 
     def hop(self, cont, ent):
         """Fetch `ent` again from container `cont` through a random addressing mode."""
-        how = self.rng.choice(["name", "id", "index", "same"])
+        if self._cache_f is not self.f:          # handles do not survive a close/reopen
+            self.handles, self._cache_f = {}, self.f
+        how = self.rng.choice(["name", "id", "index", "same", "kept", "kept"])
+        if self.handle_pairs:
+            # two-handle mode: every entity is only ever touched through one of two long-lived handles
+            old = self.handles.setdefault(ent.id, [])
+            if len(old) < 2:
+                old.append(self._fetch(cont, ent, self.rng.choice(["name", "id", "index"])))
+                return old[-1]
+            self.paths_used["handle_pair"] = self.paths_used.get("handle_pair", 0) + 1
+            return self.rng.choice(old)
+        if how == "kept":
+            # a handle obtained earlier and kept alive (with whatever containers it has already touched):
+            # "independent of how many handles to the same entity were used"
+            old = self.handles.get(ent.id)
+            if old:
+                self.paths_used["kept_handle"] = self.paths_used.get("kept_handle", 0) + 1
+                return self.rng.choice(old)
+            how = "name"
         self.paths_used[how] = self.paths_used.get(how, 0) + 1
+        got = self._fetch(cont, ent, how)
+        lst = self.handles.setdefault(ent.id, [])
+        if len(lst) < 3:
+            lst.append(got)
+        return got
+
+    def _fetch(self, cont, ent, how):
         if how == "name":
             return cont[ent.name]
         if how == "id":
@@ -378,6 +405,39 @@ class Builder:
                     del src_cont[rng.choice([src.name, src.id, src])]
                     self.sh.kill(ids)
                 add(("delete_source", 0.25, del_src))
+
+        def churn():
+            """Empty -> non-empty -> empty transitions of one link list, every micro-step through a handle fetched anew
+            (another kept handle in two-handle mode): the container group of a link list is created by the first
+            append and removed with the last entry, which is where a handle that has seen the old group can go stale."""
+            holders = [("groups", g) for g in b.groups] + [("tags", t) for t in b.tags] + [("multi_tags", t) for t in b.multi_tags] + \
+                      [("data_arrays", d) for d in b.data_arrays]
+            if not holders:
+                return "skip"
+            hc, h0 = rng.choice(holders)
+            lists = {"groups": ["data_arrays", "data_frames", "tags", "multi_tags", "sources"], "tags": ["references", "sources"],
+                     "multi_tags": ["references", "sources"], "data_arrays": ["sources"]}[hc]
+            cname = rng.choice(lists)
+            if cname == "sources":
+                pool = [x for x, _ in self.walk_sources(b)]
+            else:
+                pool = list(getattr(b, "data_arrays" if cname == "references" else cname))
+            if not pool:
+                return "skip"
+            key = (h0.id, cname)
+            for _ in range(rng.randint(2, 5)):
+                h = self.hop(getattr(b, hc), h0)
+                lc = getattr(h, cname)
+                cur = self.sh.order.setdefault(key, [])
+                if cur and (rng.random() < 0.6 or len(cur) == len(pool)):
+                    xid = rng.choice(cur)
+                    del lc[xid]
+                    cur.remove(xid)
+                else:
+                    x = rng.choice([y for y in pool if y.id not in cur])
+                    lc.append(x)
+                    cur.append(x.id)
+        add(("linklist.churn", 0.7, churn))
 
         da = self.pick(b.data_arrays)
         if da is not None:
